@@ -1,0 +1,11 @@
+//go:build verif
+
+package reddit
+
+// C10 safety sweep (govc `sweep`): index / slice / division expressions must not panic on
+// server-controlled input. Comment-only file.
+
+//@ func AddCookies
+//@   property C10
+//@   opaque
+//@   sweep idx slice div
